@@ -7,6 +7,10 @@ open Hms.Core Hms.Core.Comp
 
 /-! ## Fuel the compiler model needs -/
 namespace Frag
+/-- The longest literal list of the arms of a `match`. -/
+def litsLen : List (List Expr × Expr) → Nat
+  | [] => 0
+  | a :: as => max a.1.length (litsLen as)
 mutual
 def cdE : Expr → Nat
   | .grouped _ e => cdE e + 1
@@ -14,7 +18,11 @@ def cdE : Expr → Nat
   | .infix _ _ _ l r => max (cdE l) (cdE r) + 1
   | .ifE _ _ c t (some e) => max (cdE c) (max (cdB t) (cdB e)) + 1
   | .call _ _ _ args _ => cdArgs args + args.length + 2
+  | .matchE _ _ c arms (some d) => max (cdE c) (max (cdE d) (cdArms arms + arms.length + litsLen arms + 3)) + 1
   | _ => 1
+def cdArms : List (List Expr × Expr) → Nat
+  | [] => 1
+  | a :: as => max (cdE a.2) (cdArms as)
 def cdB : Block → Nat
   | .mk _ _ _ (some e) => cdE e + 1
   | _ => 1
@@ -38,12 +46,18 @@ def cdX : Expr → Nat
   | .ifE _ _ c t none => max (cdE c) (cdBS t) + 1
   | .call _ _ _ args _ => cdArgs args + args.length + 2
   | .tryE _ _ t _ c => max (cdBS t) (cdBS c) + 2
+  | .matchE _ _ c arms (some (.blockE db)) =>
+    max (cdE c) (max (cdBS db + 1) (cdArmsS arms + arms.length + litsLen arms + 3)) + 1
   | _ => 1
 def cdSs : List Stmt → Nat
   | [] => 1
   | s :: ss => max (cdS s) (cdSs ss) + 1
 def cdBS : Block → Nat
   | .mk _ _ stmts _ => cdSs stmts + 1
+def cdArmsS : List (List Expr × Expr) → Nat
+  | (_, .blockE b) :: rest => max (cdBS b + 1) (cdArmsS rest)
+  | _ :: rest => cdArmsS rest
+  | [] => 1
 end
 end Frag
 
@@ -226,6 +240,7 @@ theorem compileExprs_seq (cs : CState) (M : Nat) : ∀ (es : List Expr) (fuel : 
 theorem cdE_pos (e : Expr) : 1 ≤ Frag.cdE e := by
   cases e <;> try (simp [Frag.cdE]; done)
   case ifE sp ty c t el => cases el <;> simp [Frag.cdE]
+  case matchE sp ty c arms dflt => cases dflt <;> simp [Frag.cdE]
 
 theorem cdB_pos (b : Block) : 1 ≤ Frag.cdB b := by
   obtain ⟨sp, ty, stmts, oe⟩ := b
@@ -268,6 +283,115 @@ theorem wsGArgs_mem (scopes : CScopes) (φ : String → Option String) : ∀ (ar
     rcases List.mem_cons.mp ha with rfl | ha
     · simp only [Frag.wsGE, Bool.and_eq_true]; exact ⟨h1.1, h2.1⟩
     · exact ih h1.2 h2.2 a ha
+
+/-! ## The `match` lowering -/
+
+theorem compileLit_run (f : Nat) (l : Expr) (h : Frag.litE l = true) (cs : CState) (L) (c0 : SCode) (env : CEnv) :
+    (compileExpr (f + 1) l).run (updS cs L c0 env) = ((), updS cs L (c0 ++ litCode l) env) := by
+  cases l <;> simp [Frag.litE] at h <;> (rw [compileExpr]; exact emit_run_S _ _ _ _ _ _)
+
+theorem compileLitTests_run (cs : CState) (sp : Span) (name : String) : ∀ (lits : List Expr) (fuel : Nat),
+    (∀ l ∈ lits, Frag.litE l = true) → lits.length + 2 ≤ fuel →
+    ∀ (L : List (String × String × Nat)) (c0 : SCode) (env : CEnv),
+      (compileLitTests fuel sp name lits).run (updS cs L c0 env) =
+        ((), updS cs L (c0 ++ litTests sp name lits) env) := by
+  intro lits
+  induction lits with
+  | nil =>
+    intro fuel _ hf L c0 env
+    obtain ⟨f, rfl⟩ : ∃ f, fuel = f + 1 := ⟨fuel - 1, by omega⟩
+    rw [compileLitTests]
+    simp [litTests]
+    rfl
+  | cons l ls ih =>
+    intro fuel hl hf L c0 env
+    simp only [List.length_cons] at hf
+    obtain ⟨f, rfl⟩ : ∃ f, fuel = f + 2 := ⟨fuel - 2, by omega⟩
+    rw [compileLitTests]
+    refine bind_run _ _ _ _ _ _ (compileLit_run f l (hl l (by simp)) cs L c0 env) ?_
+    refine bind_run _ _ _ _ _ _ (emit_run_S _ _ _ _ _ _) ?_
+    refine bind_run _ _ _ _ _ _ (emit_run_S _ _ _ _ _ _) ?_
+    refine bind_run _ _ _ _ _ _ (emit_run_S _ _ _ _ _ _) ?_
+    rw [ih (f + 1) (fun l' h' => hl l' (by simp [h'])) (by omega)]
+    simp only [litTests, List.append_assoc, List.cons_append, List.nil_append]
+
+theorem compileArmTests_run (cs : CState) (sp : Span) : ∀ (arms : List (List Expr × Expr)) (fuel : Nat),
+    (∀ a ∈ arms, ∀ l ∈ a.1, Frag.litE l = true) → Frag.litsLen arms + arms.length + 3 ≤ fuel →
+    ∀ (L : List (String × String × Nat)) (c0 : SCode) (env : CEnv),
+      (compileArmTests fuel sp arms).run (updS cs L c0 env) =
+        ((armTests cs.currModule sp arms env.lm).2.1,
+         updS cs L (c0 ++ (armTests cs.currModule sp arms env.lm).1)
+          { env with lm := (armTests cs.currModule sp arms env.lm).2.2 }) := by
+  intro arms
+  induction arms with
+  | nil =>
+    intro fuel _ hf L c0 env
+    obtain ⟨f, rfl⟩ : ∃ f, fuel = f + 1 := ⟨fuel - 1, by omega⟩
+    rw [compileArmTests]
+    simp [armTests]
+    rfl
+  | cons a rest ih =>
+    intro fuel hl hf L c0 env
+    simp only [List.length_cons, Frag.litsLen] at hf
+    obtain ⟨f, rfl⟩ : ∃ f, fuel = f + 1 := ⟨fuel - 1, by omega⟩
+    obtain ⟨lits, act⟩ := a
+    rw [compileArmTests]
+    refine bind_run _ _ _ _ _ _ (mangleLabel_run_S _ _ _ _ _) ?_
+    refine bind_run _ _ _ _ _ _ (compileLitTests_run cs sp _ lits f (hl (lits, act) (by simp)) (by simp at hf ⊢; omega) _ _ _) ?_
+    refine bind_run _ _ _ _ _ _ (ih f (fun a' h' => hl a' (by simp [h'])) (by omega) _ _ _) ?_
+    simp only [armTests, List.append_assoc]
+    rfl
+
+theorem compileArmBodies_run (cs : CState) (sp : Span) (after : String) (M : Nat) :
+    ∀ (arms : List (List Expr × Expr)) (nms : List String) (fuel : Nat), arms.length = nms.length →
+    (∀ a ∈ arms, ∀ f, M ≤ f → f < fuel → CompGE f a.2 cs) → M + arms.length + 1 ≤ fuel →
+    ∀ (L : List (String × String × Nat)) (c0 : SCode) (env : CEnv),
+      (∀ a ∈ arms, Frag.wsGE env.scopes (φOf cs) a.2 = true) →
+      (compileArmBodies fuel sp after (arms.zip nms)).run (updS cs L c0 env) =
+        ((), updS cs L (c0 ++ (cgArms cs.currModule (ρS env.scopes) (φOf cs) sp after arms nms env.lm).1)
+          { env with lm := (cgArms cs.currModule (ρS env.scopes) (φOf cs) sp after arms nms env.lm).2 }) := by
+  intro arms
+  induction arms with
+  | nil =>
+    intro nms fuel hlen _ hf L c0 env _
+    obtain ⟨f, rfl⟩ : ∃ f, fuel = f + 1 := ⟨fuel - 1, by omega⟩
+    cases nms with
+    | cons _ _ => simp at hlen
+    | nil =>
+      rw [List.zip_nil_left, compileArmBodies]
+      simp [cgArms]
+      rfl
+  | cons a rest ih =>
+    intro nms fuel hlen hall hf L c0 env hws
+    cases nms with
+    | nil => simp at hlen
+    | cons nm nms =>
+      simp only [List.length_cons] at hf hlen
+      obtain ⟨f, rfl⟩ : ∃ f, fuel = f + 1 := ⟨fuel - 1, by omega⟩
+      obtain ⟨lits, act⟩ := a
+      rw [List.zip_cons_cons, compileArmBodies]
+      refine bind_run _ _ _ _ _ _ (emit_run_S _ _ _ _ _ _) ?_
+      refine bind_run _ _ _ _ _ _ (emit_run_S _ _ _ _ _ _) ?_
+      refine bind_run _ _ _ _ _ _ (hall (lits, act) (by simp) f (by omega) (by omega) L _ env (hws _ (by simp))) ?_
+      refine bind_run _ _ _ _ _ _ (emit_run_S _ _ _ _ _ _) ?_
+      have h2 := ih nms f (by omega) (fun a' h' f' hM hf' => hall a' (by simp [h']) f' hM (by omega)) (by omega) L
+        (c0 ++ [(Instr.label nm, sp)] ++ [(Instr.drop, sp)] ++
+            (cgE cs.currModule (ρS env.scopes) (φOf cs) act env.lm).1 ++ [(Instr.jump after, sp)])
+        { env with lm := (cgE cs.currModule (ρS env.scopes) (φOf cs) act env.lm).2 }
+        (fun a' h' => hws a' (by simp [h']))
+      rw [h2]
+      simp only [cgArms, List.append_assoc, List.cons_append, List.nil_append]
+
+theorem cdArms_mem : ∀ (arms : List (List Expr × Expr)), ∀ a ∈ arms, Frag.cdE a.2 ≤ Frag.cdArms arms := by
+  intro arms
+  induction arms with
+  | nil => intro a ha; simp at ha
+  | cons x xs ih =>
+    intro a ha
+    simp only [Frag.cdArms]
+    rcases List.mem_cons.mp ha with rfl | ha
+    · omega
+    · have := ih a ha; omega
 
 theorem updS_push (cs : CState) (L) (c0 : SCode) (env : CEnv) :
     ({ updS cs L c0 env with scopes := [] :: (updS cs L c0 env).scopes } : CState) =
@@ -358,6 +482,39 @@ theorem compile_gexpr : ∀ (fuel : Nat),
             refine bind_run _ _ _ _ _ _ (hE _ _ _ hv3 hc3) ?_
             rw [emit_run_S]
             simp only [List.append_assoc, List.cons_append, List.nil_append, Option.isSome_some, if_true]
+        case matchE sp ty c arms dflt =>
+          cases dflt with
+          | none => simp [Frag.okGE] at hok
+          | some d =>
+            simp only [Frag.okGE, Bool.and_eq_true] at hok
+            obtain ⟨⟨hc, harms⟩, hdd⟩ := hok
+            simp only [Frag.cdE] at hd
+            simp only [Frag.wsGE, Frag.varsGE, Frag.callsGE, Bool.and_eq_true] at hws
+            rw [resolved_append, resolved_append, callsOK_append, callsOK_append] at hws
+            obtain ⟨⟨hv1, hv2, hv3⟩, hc1, hc2, hc3⟩ := hws
+            have hC := ihE fuel (Nat.le_refl _) c cs hc (by omega) L c0 env
+              (by simp only [Frag.wsGE, Bool.and_eq_true]; exact ⟨hv1, hc1⟩)
+            rw [compileExpr, cgE]
+            refine bind_run _ _ _ _ _ _ hC ?_
+            refine bind_run _ _ _ _ _ _ (mangleLabel_run_S _ _ _ _ _) ?_
+            refine bind_run _ _ _ _ _ _ (compileArmTests_run cs sp arms fuel
+              (fun a ha => (okGArms_mem arms harms a ha).1) (by omega) _ _ _) ?_
+            refine bind_run _ _ _ _ _ _ (mangleLabel_run_S _ _ _ _ _) ?_
+            simp only [Option.isSome_some, if_true]
+            refine bind_run _ _ _ _ _ _ (emit_run_S _ _ _ _ _ _) ?_
+            refine bind_run _ _ _ _ _ _ (compileArmBodies_run cs sp _ (Frag.cdArms arms) arms _ fuel
+              (armTests_length _ _ _ _).symm
+              (fun a ha f' hM _ => ihE f' (by omega) a.2 cs (okGArms_mem arms harms a ha).2
+                (by have := cdArms_mem arms a ha; omega))
+              (by omega) _ _ _ (wsGArms_mem env.scopes (φOf cs) arms hv2 hc2)) ?_
+            simp only []
+            refine bind_run _ _ _ _ _ _ (emit_run_S _ _ _ _ _ _) ?_
+            refine bind_run _ _ _ _ _ _ (emit_run_S _ _ _ _ _ _) ?_
+            refine bind_run _ _ _ _ _ _ (ihE fuel (Nat.le_refl _) d cs hdd (by omega) _ _ _
+              (by simp only [Frag.wsGE, Bool.and_eq_true]; exact ⟨hv3, hc3⟩)) ?_
+            refine bind_run _ _ _ _ _ _ (emit_run_S _ _ _ _ _ _) ?_
+            rw [emit_run_S]
+            simp only [List.append_assoc, List.cons_append, List.nil_append]
         case call sp ty base args sw =>
           obtain ⟨isp, ity, name, g, f, si, rfl, rfl, hthrow, hprint, hoka, hone⟩ := okGE_call_inv _ _ _ _ _ hok
           simp only [Frag.cdE] at hd
